@@ -8,7 +8,7 @@ META = {
             'oracle = reference line writer applied to the reference tree of C01 (so "same tree as HTML" holds by construction); '
             'C15-b: decorated templates (id/class/attributes/text, multi-line text) with a symbolic indent string and payload.',
     'bounds': {
-        'quick': 'skeletons of <=5 items x haml/pug/slim, repeat counts 1..3; 14 decorated templates x 3 syntaxes, indent = any '
+        'quick': 'skeletons of <=5 items x haml/pug/slim, repeat counts 1..3; 16 decorated templates x 3 syntaxes, indent = any '
                  'string of 1..2 spaces/tabs, payload 1..2 chars',
         'thorough': 'skeletons of <=6 items; indent 0..3 chars',
     },
@@ -156,6 +156,8 @@ DECO = [
     [N('ex', 'i', ['c'], [('t', 'QZ1')], 'w', [N('ey', None, [], [], None, [N('ez')])]), N('ew')],
     [N('ex', None, [], [], None, [N('br', None, [], [], None, [], True), N('ey', 'j')])],
     [N('div', 'i', ['c'], [], 'QZ1')],
+    [N('ex', None, [], [], ['a', '', 'b'])],
+    [N('ex', None, [], [], None, [N('ey', None, [], [], ['ab', '', '', 'c'], [N('ez')])])],
 ]
 
 
